@@ -367,9 +367,42 @@ pub fn build_sink(kind: &str) -> Option<Box<dyn DynSink>> {
 
 type Log = Rc<RefCell<Vec<Vec<Q>>>>;
 
-/// a probe stage: a real filter plus a record of every input it was invoked with
+/// stages defined by the harness itself: simple, stateful, mutually non-commuting (the pipe property must
+/// not depend on any library filter being right)
+pub enum OwnStage {
+    Acc { sum: Q, a: Q },
+    Affine { a: Q, b: Q },
+    Lag { prev: Q },
+    RunMax { m: Option<Q> },
+}
+impl OwnStage {
+    fn step(&mut self, x: Q) -> Q {
+        match self {
+            OwnStage::Acc { sum, a } => {
+                *sum = *sum + x;
+                *sum + *a
+            }
+            OwnStage::Affine { a, b } => *a * x + *b,
+            OwnStage::Lag { prev } => std::mem::replace(prev, x),
+            OwnStage::RunMax { m } => {
+                let r = match m {
+                    None => x,
+                    Some(cur) => if x > *cur { x } else { *cur },
+                };
+                *m = Some(r);
+                r
+            }
+        }
+    }
+}
+pub enum ProbeInner {
+    Lib(Box<dyn Inst>),
+    Own(OwnStage),
+}
+
+/// a probe stage: a stage plus a record of every input it was invoked with
 pub struct Probe {
-    inner: Box<dyn Inst>,
+    inner: ProbeInner,
     idx: usize,
     log: Log,
 }
@@ -377,8 +410,13 @@ impl Filter<Q> for Probe {
     type Output = Q;
     fn filter(&mut self, x: Q) -> Q {
         self.log.borrow_mut()[self.idx].push(x);
-        let r = self.inner.f(&[Val::Q(x)]);
-        Q::from_val(parse_val(&r))
+        match &mut self.inner {
+            ProbeInner::Lib(inst) => {
+                let r = inst.f(&[Val::Q(x)]);
+                Q::from_val(parse_val(&r))
+            }
+            ProbeInner::Own(o) => o.step(x),
+        }
     }
 }
 
@@ -642,7 +680,15 @@ fn build_pipe(line: &str) -> PipeInst {
             let parts: Vec<&str> = l.split(';').collect();
             let lkv = filt::parse_kv(&parts[1..]);
             log.borrow_mut().push(Vec::new());
-            leaves.push(Some(Probe { inner: filt::build(parts[0], &lkv), idx, log: log.clone() }));
+            let q = |k: &str| Q::from_val(parse_val(lkv.get(k).expect("harness: missing stage parameter")));
+            let inner = match parts[0] {
+                "p_acc" => ProbeInner::Own(OwnStage::Acc { sum: Q::int(0), a: q("a") }),
+                "p_affine" => ProbeInner::Own(OwnStage::Affine { a: q("a"), b: q("b") }),
+                "p_lag" => ProbeInner::Own(OwnStage::Lag { prev: q("init") }),
+                "p_max" => ProbeInner::Own(OwnStage::RunMax { m: None }),
+                kind => ProbeInner::Lib(filt::build(kind, &lkv)),
+            };
+            leaves.push(Some(Probe { inner, idx, log: log.clone() }));
         }
     }
     let mut parts = Parts {
